@@ -24,7 +24,9 @@ ASSUMPTIONS = [
     "statistical bounds: exact binomial tail 1e-12, |z| <= 8 (per-statistic false-alarm probability < 1e-12 for a correct generator)",
     "a weight drawn as exactly 0.0 inside a range containing 0 has probability 0 and is treated as 'no edge'",
 ]
-RANGES = [(1, 1), (0.5, 2), (-2, -0.5), (-1, 1), (0, 0), (-3, -3)]
+RANGES = [(1, 1), (0.5, 2), (-2, -0.5), (-1, 1), (0, 0), (-3, -3),
+          (1e-320, 1e-310), (-3e17, -1e17), (1e-300, 2e-300)]       # subnormal, huge and tiny weights are weights too
+PTYPES = [None, "int8", "uint8", None, "int16", None, "uint16"]     # p as a (narrow) numpy integer
 
 
 def _valid(W, p, w_min, w_max, what):
@@ -56,8 +58,9 @@ def _valid_order(order, rows, p, what):
 
 def _call(gen, case, seed, with_order):
     import sempler.generators as gens
-    from props.gcommon import npint
-    p = npint(case["p"], seed)             # p / k as Python or numpy numbers, arguments by keyword or by position
+    from props.gcommon import npint, typed_int
+    # p / k as Python or numpy numbers, arguments by keyword or by position
+    p = typed_int(case["p"], case["ptype"]) if case.get("ptype") else npint(case["p"], seed)
     w_min, w_max = case["w"]
     style = seed % 5
     if gen == "avg":
@@ -243,18 +246,21 @@ def _grid(tier, seed):
     for p in [2, 3, 4, 5, 6, 7, 8, 20, 60]:
         ks = [h / 2.0 for h in range(0, 2 * (p - 1) + 1)] if p <= 8 else [0, 0.5, 2, 3.7, p / 2.0, p - 1]
         for ki, k in enumerate(ks):
-            ranges = RANGES if tier == "thorough" else [RANGES[(ki + p) % 4], RANGES[4 + (ki % 2)]] if ki % 3 == 0 else [RANGES[(ki + p) % 4]]
+            ranges = (RANGES if tier == "thorough" else [RANGES[(ki + p) % 4], RANGES[4 + (ki % 2)]] if ki % 3 == 0
+                      else [RANGES[(ki + p) % 4], RANGES[6 + (ki + p) % 3]] if ki % 3 == 1 else [RANGES[(ki + p) % 4]])
             for w in ranges:
                 idx += 1
                 Sp = S if p <= 8 else max(50, S // 4) if p == 20 else 50
                 cfgs.append({"sub": "grid", "gen": "avg", "p": p, "k": k, "w": list(w),
                              "ordering": ["yes", "mixed", "yes", "no"][idx % 4], "debug": idx % 5 == 0,
+                             "ptype": PTYPES[idx % 7],
                              "seeds": [seed * 1000003 + idx * 5003 + s for s in range(Sp)]})
     for p in [0, 1, 2, 3, 4, 5, 6, 8, 20]:
         for wi, w in enumerate(RANGES):
             idx += 1
             Sp = (240 if tier == "quick" else 1000) if p >= 2 else 6
             cfgs.append({"sub": "grid", "gen": "full", "p": p, "k": None, "w": list(w), "ordering": ["yes", "mixed", "yes"][idx % 3],
+                         "ptype": PTYPES[idx % 7],
                          "seeds": [seed * 1000003 + idx * 5003 + s for s in range(Sp if p <= 8 else 50)]})
     return cfgs
 
